@@ -5,6 +5,7 @@ package c05
 import (
 	"bytes"
 	"fmt"
+	"sort"
 	"strconv"
 	"strings"
 	"testing"
@@ -22,10 +23,10 @@ type Cfg struct {
 }
 
 type Case struct {
-	Name   string // may hold arbitrary bytes; NameHex is authoritative
+	Name    string // may hold arbitrary bytes; NameHex is authoritative
 	NameHex string
-	Config []Cfg
-	Keys   []string // extra keys to extract (besides those derived from the name)
+	Config  []Cfg
+	Keys    []string // extra keys to extract (besides those derived from the name)
 }
 
 func mkCase(name string, cfg []Cfg, keys []string) Case {
@@ -169,6 +170,71 @@ func Check(c Case) (v vcase.Verdict) {
 			m, _ := f.Match(res)
 			if m.All() != probe.want || m.Any() != probe.want || m.Test(0) != probe.want {
 				v.Failf("name %q config %v: filter %s:%s matched=%v, reference extraction %q", name, cfgRef, k, strconv.Quote(probe.val), m.All(), wv)
+				return
+			}
+		}
+	}
+	// .fullname next to plain (file configuration) keys in the projections of one
+	// parser: plain keys never remove anything from the name, whatever sub-name
+	// keys the name happens to contain. (Sub-name keys and .name next to
+	// .fullname do — that is C08's subject.)
+	var plain []string
+	for k := range want {
+		if !strings.HasPrefix(k, "/") && k != ".name" && k != ".fullname" {
+			plain = append(plain, k)
+		}
+	}
+	sort.Strings(plain)
+	if len(plain) > 0 {
+		v.Label("fullname_beside_plain_keys")
+		for _, k := range plain {
+			if strings.Contains(name, "/"+k+"=") || (k == "gomaxprocs" && refbench.NameKey(name, "gomaxprocs") != "") {
+				v.Label("plain_key_also_a_subname_key")
+			}
+		}
+		var pp benchproc.ProjectionParser
+		var fields []*benchproc.Field
+		var keys []benchproc.Key
+		if len(name)%2 == 0 {
+			// one expression
+			q := strconv.Quote(".fullname")
+			for _, k := range plain {
+				q += "," + strconv.Quote(k)
+			}
+			proj, err := pp.Parse(q, nil)
+			if err != nil {
+				v.Failf("Parse(%s): %v", q, err)
+				return
+			}
+			key := proj.Project(res)
+			for _, f := range proj.Fields() {
+				fields, keys = append(fields, f), append(keys, key)
+			}
+		} else {
+			// separate projections of one parser (as -row / -col / -table are)
+			var projs []*benchproc.Projection
+			for _, k := range append([]string{".fullname"}, plain...) {
+				proj, err := pp.Parse(strconv.Quote(k), nil)
+				if err != nil {
+					v.Failf("Parse(%s): %v", strconv.Quote(k), err)
+					return
+				}
+				projs = append(projs, proj)
+			}
+			for _, proj := range projs {
+				key := proj.Project(res)
+				for _, f := range proj.Fields() {
+					fields, keys = append(fields, f), append(keys, key)
+				}
+			}
+		}
+		if len(fields) != len(plain)+1 {
+			v.Failf("projection of .fullname and %q has %d fields", plain, len(fields))
+			return
+		}
+		for i, f := range fields {
+			if got := keys[i].Get(f); got != want[f.Name] {
+				v.Failf("name %q config %v: projections .fullname,%s of one parser: field %q = %q, reference %q", name, cfgRef, strings.Join(plain, ","), f.Name, got, want[f.Name])
 				return
 			}
 		}
